@@ -70,6 +70,11 @@ PIL_MODES = FILE_MODES + ["PA", "HSV"]
 KITTY_IDENTS = ["kitty", "kitty-old", "konsole"]
 ITERM_IDENTS = ["iterm2", "konsole", "wezterm"]
 
+# terminal backgrounds (alpha "#" composites over them): black / none, components below 0x10
+# (a hex form without zero padding is malformed or mis-parsed), mixed, and plain ones
+TERM_BGS = [None, [0, 0, 0], [16, 32, 48], [13, 17, 23], [0, 255, 0], [8, 8, 8], [1, 2, 3], [15, 16, 17],
+            [255, 0, 9], [10, 200, 255]]
+
 _dir: Path | None = None
 
 
@@ -120,7 +125,7 @@ def build_source(case):
     bg = case["alpha"] if alphakind == "bghex" else None
     if alphakind == "bgterm":
         tb = case["fg_bg"][1]
-        bg = "#%02x%02x%02x" % tuple(tb) if tb else "#000000"
+        bg = (*tb, 255) if tb else (0, 0, 0, 255)  # the exact RGB triple, no string form involved
     if kind.startswith("anim"):
         _, n, frame, how = kind.split(":")
         path = _dir / f"anim-{case['seed']}-{n}-{w}x{h}.gif"
@@ -298,6 +303,7 @@ def render_on(image, case, ref, animated, via=None, text=None):
         modeclass=proj.mode_class(ref.mode),
         alphakind=alpha_kind(alpha),
         srckind=kind.split(":")[0],
+        termbg=str(case["fg_bg"][1]),
         unstable=bool(cells2),
         cw2=cell2[0],
         ch2=cell2[1],
@@ -481,7 +487,7 @@ def base_case(rng, style, **kw):
         cell=[9, 18],
         via="renderer",
         seed=rng.randrange(1 << 30),
-        fg_bg=rng.choice([[None, None], [[200, 200, 200], [0, 0, 0]], [None, [16, 32, 48]]]),
+        fg_bg=[rng.choice([None, [200, 200, 200]]), rng.choice(TERM_BGS)],
         jpeg=None,
         rff=None,
     )
@@ -709,7 +715,7 @@ def interleaved_cases(rng, tier):
                     sb, mb = sa, rng.choice(["lines", "whole"])
                 ident = "konsole" if sa != sb else rng.choice(KITTY_IDENTS if sa == "kitty" else ITERM_IDENTS)
                 cell = rng.choice(CELLS)
-                fg_bg = rng.choice([[None, None], [None, [16, 32, 48]]])
+                fg_bg = [None, rng.choice(TERM_BGS)]
 
                 def one(style, method):
                     c = base_case(rng, style, method=method, ident=ident, cell=cell, fg_bg=fg_bg,
@@ -738,7 +744,31 @@ def interleaved_cases(rng, tier):
                 yield a
 
 
+def termbg_cases(rng, tier):
+    """alpha '#': transparent pixels are composited over the TERMINAL's background colour, for
+    every background of TERM_BGS x style x method, on sources that carry transparency."""
+    reps = 1 if tier == "quick" else 10
+    for _ in range(reps):
+        for bg in TERM_BGS:
+            for style, method in (("kitty", "lines"), ("kitty", "whole"), ("iterm2", "lines"),
+                                  ("iterm2", "whole"), ("iterm2", "anim")):
+                for mode in ("RGBA", rng.choice(["LA", "P", "PA"])):
+                    kind = "pil" if mode == "PA" else rng.choice(["pil", "pilfile", "file"])
+                    c = base_case(rng, style, method=method, alpha="#", mode=mode, srckind=kind,
+                                  fg_bg=[None, bg], cell=rng.choice(CELLS),
+                                  size=[rng.randrange(1, 5), rng.randrange(1, 4)],
+                                  src=rng.choice([[3, 5], [16, 9], [7, 13], [40, 40]]), pixstyle="mixed")
+                    if rng.random() < 0.5:
+                        c["args"]["compress"] = rng.randrange(0, 10)
+                    if style == "iterm2":
+                        c["jpeg"] = rng.choice([None, None, None, 50])
+                        c["rff"] = rng.choice([None, True, False])
+                    c["via"] = rng.choice(["format", "renderer"])
+                    yield c
+
+
 def gen_cases(rng, tier):
+    yield from termbg_cases(rng, tier)
     yield from interleaved_cases(rng, tier)
     yield from history_cases(rng, tier)
     yield from unstable_cases(rng, tier)
@@ -1006,6 +1036,7 @@ def main(rep: Report, replay: dict | None) -> None:
     unstable: dict[str, int] = {}
     histories: dict[str, int] = {}
     interleaved: dict[str, int] = {}
+    termbg: dict[str, int] = {}
     rejected = 0
     block = 4000
     for b0 in range(0, len(cases), block):
@@ -1078,6 +1109,9 @@ def main(rep: Report, replay: dict | None) -> None:
         for key, n in classify_boundaries(traces).items():
             bc[key] = bc.get(key, 0) + n
         for tr in traces:
+            if tr["hdr"]["alphakind"] == "bgterm" and tr["hdr"]["modeclass"] != "opaque":
+                termbg[tr["hdr"]["termbg"]] = termbg.get(tr["hdr"]["termbg"], 0) + 1
+        for tr in traces:
             if tr["hdr"].get("il", "B") != "B":
                 interleaved[tr["hdr"]["il"]] = interleaved.get(tr["hdr"]["il"], 0) + 1
         for tr in traces:
@@ -1103,6 +1137,11 @@ def main(rep: Report, replay: dict | None) -> None:
     rep.extra["renders"] = len(cases)
     rep.extra["Trace_Gfx_actions"] = actions
     rep.extra["unstable_cell_size_renders"] = unstable
+    rep.extra["alpha_hash_renders_by_terminal_background"] = termbg
+    if not replay and not rep.violations and any(
+        not termbg.get(str(bg)) for bg in TERM_BGS
+    ):
+        raise tlc.MachineryError(f"a terminal background was never composited over: {termbg}")
     rep.extra["interleaved_render_pairs"] = interleaved
     if not replay and not rep.violations and len(interleaved) < 20:
         raise tlc.MachineryError(f"interleaved-renders group is incomplete: {interleaved}")
